@@ -493,7 +493,9 @@ def _explore_task(task):
         acc.count("evaluations")
         acc.count("transitions", res.transitions)
         acc.count("choice_points", res.cps)
-        acc.sets.setdefault("states", set()).update(res.digests)
+        st = acc.sets.setdefault("states", set())
+        if len(st) < 300_000:  # statistic only; bounded per task so a deep subtree cannot exhaust memory
+            st.update(res.digests)
         acc.distinct("outcomes", res.outcome)
         if d:  # non-trivial = departs from the canonical schedule; distinct = distinct event schedule actually executed
             acc.sets.setdefault("distinct", set()).add(hash((name, res.sched)) & 0xFFFFFFFFFFFFFFFF)
